@@ -78,7 +78,9 @@ CLAIMS = {
              "callbacks fire in request order, each at most once, exactly once without faults (with the model's fuel); the "
              "coverage invariant is preserved by every call/flush/worker step. System level (c04_positive_callback_means_durable): for "
              "every legal history with any worker outcomes, a positive callback of a flush implies that at the end of the history every "
-             "live chunk file is written and durable up to the journal end of that flush. Implementation-side oracle on the interposed "
+             "live chunk file is written and durable up to the journal end of that flush; the same from every system reached by any mixture of "
+             "histories, clean restarts and crash recoveries (Props/LiftRestart: c04_positive_callback_means_durable_reach; the restart "
+             "lemma needed `open` to sync the files it keeps - defect D15, fixed in 40ee787). Implementation-side oracle on the interposed "
              "trace (per-file written/synced counters) under injected EIO / short writes at every call.",
              technique="Lean 4 invariants over the worker small-step machine + trace oracle under fault injection + correspondence",
              ref="8 C04"),
@@ -169,7 +171,7 @@ CLAIMS = {
              ref="8 C03"),
  "C02": dict(text="Proved (c02_clean_restart, c02_cycles, c02_refinement_continues): for every legal history with the worker alive, "
              "if everything is flushed, the worker is quiet and no removal is outstanding, then drop + open with ANY "
-             "configuration succeeds, issues no file-system call, leaves every file byte-identical, and yields the same state, "
+             "configuration succeeds, issues no file-system call other than one fdatasync per chunk file it keeps (fix 40ee787), leaves every file byte-identical, and yields the same state, "
              "the same index map and the same chunk table; the journal and replay invariants hold again, so this iterates over "
              "any number of cycles, and with covering cache limits the refinement to the reference log (C01) continues. Built on "
              "a replay invariant (replaying the retained journal from scratch gives the live state and index, also after purges "
